@@ -663,6 +663,10 @@ fn base_content(case: &Case, tmp: &TmpDir, obs: &mut Obs) -> Result<Option<Vec<u
 
 pub fn run_case(case: &Case, obs: &mut Obs) -> Verdict {
     let t0 = std::time::Instant::now();
+    if let Ok(p) = std::env::var("VERIF_C20_TRACE") {
+        // the case in progress, one file per worker process (to find a case that kills the worker)
+        let _ = std::fs::write(format!("{}.{}", p, std::process::id()), serde_json::to_string(case).unwrap_or_default());
+    }
     let v = run_case_inner(case, obs);
     if let Ok(p) = std::env::var("VERIF_C20_TIMING") {
         use std::io::Write;
@@ -1252,7 +1256,8 @@ impl Check for C20 {
         1200
     }
     fn max_shrink_iters(&self) -> u32 {
-        400
+        // a shrink step on a case that ends the child costs two watchdog periods
+        60
     }
     fn prepare(&self, _args: &vcore::Args) -> Result<(), String> {
         std::fs::create_dir_all(cmp::tmp_base("c20")).map_err(|e| e.to_string())?;
